@@ -28,6 +28,7 @@ ENTRIES = [
 
 
 def run(ctx):
+    ctx.do(P.rule_dual1)
     ctx.do(MI.rule_pinv1)
     ctx.do(MI.rule_inv3)
     # the inverse is typed like its argument only if no quotient is stored
